@@ -9,7 +9,7 @@ RULE = ('poison: mixed histories (v5, v9, IPFIX, sFlow) through the real pipe wi
         'column == model (which starts every message empty); prefix: probe histories of an exporter of its own (10.9.9.9) '
         'appended to prefix histories of 0..200 datagrams of other exporters (valid, mutated, failing), with and without '
         'poisoning, and under a mapping file with custom fields: bin, JSON and text bytes of the probe == those of the probe '
-        'run alone in a fresh process; concurrent: the prefix replayed by 4 goroutines on the same pipe while the probe runs. '
+        'run alone in a fresh process; damaged probes: the probe\'s last datagram cut short, announcing more records / samples than it carries, or mutated, after 1..40 complete datagrams of the same protocol, same oracle; concurrent: the prefix replayed by 4 goroutines on the same pipe while the probe runs. '
         'non-trivial = the probe produced at least one message after a non-empty prefix; distinct by input')
 TRUSTED = ['Coq 8.16.1 kernel (coqc)', 'extraction + ocaml/main.ml glue', 'Go harness harness/pool.go, the verif hook VerifPoisonPool, bin/engine.py',
            'modelled, not verified: producer/proto messages.go pool, FlowMessage.Reset (generated code)']
@@ -146,6 +146,47 @@ def run(chk):
         alone.append('pipeall flow %s #0 #0 %s' % (cfg, probe))
         withp.append('pipeall flow %s #%x #0 %s %s' % (cfg, npre, ' '.join(pre), probe))
         meta.append((npre, True, 0))
+    # 2c. the PROBE itself fails half-way (sixth round, seed C12-6): the property quantifies over every datagram d, so the
+    # probe's last datagram is cut short (anywhere; at and inside record / sample boundaries), announces more records
+    # or samples than it carries, or is otherwise damaged -- after a prefix of complete datagrams of the SAME protocol
+    # (whatever a decoder recycles between datagrams -- packet, record list, sample list -- then still holds their
+    # content where the damaged datagram leaves it unwritten). Oracle as in 2: the probe alone in a fresh process.
+    hq4 = []
+    for h in hists:
+        f = h.split(' ')
+        hq4.append([f[i:i + 4] for i in range(0, len(f) - 3, 4)])
+    byproto = {}
+    for q in quads:
+        byproto.setdefault(q[3][1:5], []).append(q)
+    ndam = dict(quick=90, thorough=1500)[chk.tier]
+    for i in range(ndam):
+        hq_ = rng.choice([h for h in hq4 if h])
+        k = rng.randrange(len(hq_))
+        d = bytes.fromhex(hq_[k][3][1:])
+        kind = i % 3
+        if kind == 0 and len(d) > 30:        # cut short behind the header
+            m = d[:rng.randrange(24, len(d))]
+        elif kind == 1 and len(d) > 30:      # count word inflated (v5 / v9: bytes 2..3, sFlow: the word in front of the samples)
+            m = bytearray(d)
+            if d[:4] == b'\x00\x00\x00\x05':
+                pos = 24 if d[4:8] == b'\x00\x00\x00\x01' else 36
+                if pos + 4 <= len(m):
+                    m[pos:pos + 4] = (int.from_bytes(d[pos:pos + 4], 'big') + rng.choice([1, 2, 5, 30])).to_bytes(4, 'big')
+                m = bytes(m[:rng.randrange(max(pos + 4, len(m) // 2), len(m) + 1)])
+            else:
+                m[2:4] = (min(65535, int.from_bytes(d[2:4], 'big') + rng.choice([1, 2, 5, 30]))).to_bytes(2, 'big')
+                m = bytes(m)
+        else:
+            m = mutate_bytes(rng, d, 1)[0]
+        probe = readdress(' '.join(' '.join(q) for q in hq_[:k] + [hq_[k][:3] + ['=' + bytes(m).hex()]]))
+        same = byproto.get(hq_[k][3][1:5], quads)
+        npre = rng.choice([1, 3, 10, 40])
+        pre = [x for q in (rng.choice(same) for _ in range(npre)) for x in q]
+        cfg = rng.choice(cfgs)
+        alone.append('pipeall flow %s #0 #0 %s' % (cfg, probe))
+        withp.append('pipeall flow %s #%x #0 %s %s' % (cfg, npre, ' '.join(pre), probe))
+        meta.append((npre, cfg != 'none', 0))
+    chk.count('prefix: damaged probe', ndam)
     # each 'alone' run in a fresh process
     outs_alone = [impl_run(chk.harness, [a], timeout=60.0)[0] for a in alone]
     outs_with = impl_run(chk.harness, withp, timeout=240.0)
